@@ -295,3 +295,15 @@ func (w *VerifWorld) SortedServers() []*VerifConn {
 	}
 	return out
 }
+
+// Probe sends the periodic CLUSTER NODES probe to a node, as OnTicker does (an ownerless fragment
+// on that node's connection).
+func (w *VerifWorld) Probe(addr string) {
+	p, ok := EngineGlobal.ProxyPool[addr]
+	if !ok {
+		return
+	}
+	if sc := p.Get(); sc != nil {
+		_ = sc.WriteClusterNodes()
+	}
+}
